@@ -2865,7 +2865,7 @@ static int spmatrix_set_size(spmatrix *self, PyObject *value, void *closure)
   if (m<0 || n<0)
     PY_ERR_INT(PyExc_TypeError, "dimensions must be non-negative");
 
-  if (m*n != SP_NROWS(self)*SP_NCOLS(self))
+  if ((int_t)m*n != SP_NROWS(self)*SP_NCOLS(self))
     PY_ERR_INT(PyExc_TypeError, "number of elements in matrix cannot change");
 
   int_t *colptr = calloc((n+1),sizeof(int_t));
